@@ -66,12 +66,14 @@ PROPS = {'C01': {'assumptions': ['hostile bytes inside histories are decoded und
          'max_cases_miri': 8,
          'miri_workers': 6,
          'required_counters': ['family:native-corpus', 'family:untyped', 'agree:to_bytes', 'cover:table-over-64-entries'],
-         'rule': '(a) 0..3 (wide family: 25..64, so that the type table exceeds 64 entries and type references need two SLEB128 bytes) generated values of corpus Rust types through IDLBuilder::arg/serialize_to_vec; (b) generated (environment with aliases, knots, '
-                 'mutual recursion, shared sub-types; wide family: 65..155 distinct field/argument types, option towers, definition chains; types; values; some labels as names) through IDLArgs::to_bytes_with_types and '
-                 'IDLBuilder::value_arg_with_type, and IDLArgs::to_bytes on the values as the decoder returns them when their vectors are homogeneous. Oracle: '
-                 'the reference decoder R1 accepts the bytes (composite-only table, ascending unique field ids, ascending unique method names, methods are '
-                 'functions, indices in range), every LEB128 is minimal, argument types are structurally equal (bisimulation) to the source types, abstract '
-                 'values equal the source values, encoding again gives identical bytes. non-trivial: every case; distinct by (types, encoded length)'},
+         'rule': '(a) 0..3 (wide family: 25..64, so that the type table exceeds 64 entries and type references need two SLEB128 bytes) generated values of '
+                 'corpus Rust types through IDLBuilder::arg/serialize_to_vec; (b) generated (environment with aliases, knots, mutual recursion, shared '
+                 'sub-types; wide family: 65..155 distinct field/argument types, option towers, definition chains; types; values; some labels as names) '
+                 'through IDLArgs::to_bytes_with_types and IDLBuilder::value_arg_with_type, and IDLArgs::to_bytes on the values as the decoder returns them '
+                 'when their vectors are homogeneous. Oracle: the reference decoder R1 accepts the bytes (composite-only table, ascending unique field ids, '
+                 'ascending unique method names, methods are functions, indices in range), every LEB128 is minimal, argument types are structurally equal '
+                 '(bisimulation) to the source types, abstract values equal the source values, encoding again gives identical bytes. non-trivial: every case; '
+                 'distinct by (types, encoded length)'},
  'C04': {'assumptions': ['host limits excluded: 128-bit range of u128/i128, fixed array length',
                          'coercions without a finite derivation (value at `type O = opt O`) are excluded (counter excluded:coercion-diverges)'],
          'budget_quick': 20,
@@ -581,6 +583,7 @@ PROPS = {'C01': {'assumptions': ['hostile bytes inside histories are decoded und
          'lanes_quick': ['D'],
          'lanes_thorough': ['D'],
          'max_workers': 1,
+         'max_workers_thorough': 4,
          'required_counters': ['modules-compiled', 'agree:type', 'outcome:compiles', 'cover:module-A', 'cover:module-B', 'rounds'],
          'rule': 'every generated well-typed program: emit_bindgen (A) as is and (B) with a synthetic service vrf_m_i : (Def_i)->(Def_i); the emitted type '
                  'definitions are compiled in a generated crate (rsbind/), the binary prints T::ty() of every definition / method argument / result / init '
@@ -664,8 +667,10 @@ PROPS = {'C01': {'assumptions': ['hostile bytes inside histories are decoded und
                  'configs (depth/size/width/range/text kind at top level, by type, by label, by argument, by func:/arg:/ret: scope; value lists well- and '
                  'ill-typed): result is Err, or Ok(args) with len == #types, R7 has_type(model_value(arg), t), annotate_types(false) returns the same abstract '
                  'values, to_bytes_with_types Ok and the reference decoder R1 reads the same values; no panic / process death on a 2 MiB stack (calls run in a '
-                 'forked helper process so a death is reported with its witness); value depth / node count vs configured budget recorded in maxima, flagged at '
-                 '20x (depth) / 100x (nodes). non-trivial = distinct (type shapes, seed class, config class, outcome)'},
+                 'forked helper process so a death is reported with its witness); value depth must not exceed (configured depth + longest forced completion of '
+                 'the types + 1) when depth is set at the top level and no value list applies (every type node on a path costs one unit; below zero only '
+                 'absent options, empty vectors, finite variant cases and all record fields are produced); node count vs configured size recorded in maxima, '
+                 'flagged at 100x. non-trivial = distinct (type shapes, seed class, config class, outcome)'},
  'selftest': {'budget_quick': 8,
               'budget_thorough': 30,
               'lanes_quick': ['D'],
